@@ -290,6 +290,104 @@ example : decodeRun sumCfg (fun _ _ => 0) (fun i j => !(decide (i = 2) && decide
       (causal fun i j => !(decide (i = 2) && decide (j = 0))) = [6, 144, 714] := by
   decide
 
+/-! ### `dot_product_attention_weights` / `dot_product_attention`: the plumbing around softmax -/
+
+section Weights
+variable {W : Type}
+
+/-- **the logits handed to softmax**: position `j` holds `(q / √d) · k_j + bias_j` where the mask allows it and
+`finfo.min` elsewhere — scaling acts on the query, the bias is added before the mask and is discarded with the
+logit at masked positions, softmax runs over the key axis, dropout comes last. In terms of `rowOf`: the
+masked-logit row with `none ↦ finfo.min`. -/
+theorem weights_row_spec (scaleQ : Q → Q) (dotp : Q → K → S) (addBias : S → B → S) (ops : SoftmaxOps S W V O)
+    (dropout : List W → List W) (q : Q) (slots : List (Slot K V B)) :
+    weightsRow scaleQ dotp addBias ops dropout q slots =
+      dropout (ops.softmax ((rowOf (fun q k => dotp (scaleQ q) k) addBias q slots).map fun p => p.1.getD ops.bigNeg)) := by
+  simp only [weightsRow, rowOf, List.map_map]
+  congr 2
+  apply List.map_congr_left
+  intro s _
+  cases hs : s.allowed <;> simp [hs]
+
+/-- `dot_product_attention` (deterministic) = weighted sum of the values with exactly those weights -/
+theorem attention_is_weighted_sum (scaleQ : Q → Q) (dotp : Q → K → S) (addBias : S → B → S) (ops : SoftmaxOps S W V O)
+    (q : Q) (kvs : List (K × V)) (bias : Nat → B) (mask : Nat → Bool) :
+    attnRow ⟨fun q k => dotp (scaleQ q) k, addBias, attendOf ops⟩ q kvs bias mask =
+      ops.wsum ((weightsRow scaleQ dotp addBias ops id q (slotsFrom bias mask 0 kvs)).zip
+        ((slotsFrom bias mask 0 kvs).map (·.val))) := by
+  simp only [attnRow, attendOf, weights_row_spec, id]
+  congr 2
+  simp [rowOf]
+
+private theorem aux_scatter_wsum (ops : SoftmaxOps S W V O) (zero : W)
+    (h2 : ∀ (a b : List (W × V)) (v : V), ops.wsum (a ++ (zero, v) :: b) = ops.wsum (a ++ b))
+    (row : List (Option S × V)) : ∀ (ws : List W) (acc : List (W × V)),
+    ws.length = (visible row).length →
+    ops.wsum (acc ++ (scatter zero (row.map (·.1)) ws).zip (row.map (·.2))) =
+      ops.wsum (acc ++ ws.zip ((visible row).map (·.2))) := by
+  induction row with
+  | nil => intro ws acc h; simp [scatter, visible]
+  | cons p row ih =>
+    intro ws acc h
+    obtain ⟨s, v⟩ := p
+    cases s with
+    | none =>
+      simp only [List.map_cons, scatter, List.zip_cons_cons, visible, List.filterMap_cons, Option.map_none] at h ⊢
+      rw [h2]
+      exact ih ws acc h
+    | some s =>
+      cases ws with
+      | nil => simp [visible] at h
+      | cons w ws =>
+        simp only [List.map_cons, scatter, List.zip_cons_cons, visible, List.filterMap_cons, Option.map_some,
+          List.length_cons] at h ⊢
+        have := ih ws (acc ++ [(w, v)]) (by simpa [visible] using h)
+        simpa [visible] using this
+
+/-- **A-SOFTMAX reduced to two primitive facts.** If (1) on a row of logits whose masked entries were replaced
+by `finfo.min`, softmax gives weight `zero` to the masked positions and gives the allowed positions the weights
+`sm` computes from the allowed logits alone, and (2) the weighted sum ignores terms of weight `zero`, then
+softmax·V sees a row only through its allowed (logit, value) pairs — the hypothesis of every attention theorem
+above. (For the real float softmax (1) holds on rows with at least one allowed entry: `exp(finfo.min - max)`
+underflows to 0; a fully masked row gets uniform weights and is outside the property.) -/
+theorem attend_sees_only_visible (score : Q → K → S) (addBias : S → B → S) (ops : SoftmaxOps S W V O) (zero : W)
+    (sm : List S → List W) (hsm : ∀ l, (sm l).length = l.length)
+    (h1 : ∀ row : List (Option S), ops.softmax (row.map (·.getD ops.bigNeg)) = scatter zero row (sm (row.filterMap id)))
+    (h2 : ∀ (a b : List (W × V)) (v : V), ops.wsum (a ++ (zero, v) :: b) = ops.wsum (a ++ b)) :
+    SeesOnlyVisible (⟨score, addBias, attendOf ops⟩ : AttnCfg Q K V B S O) := by
+  have key : ∀ row : List (Option S × V), attendOf ops row =
+      ops.wsum ((sm ((visible row).map (·.1))).zip ((visible row).map (·.2))) := by
+    intro row
+    have hf : (row.map (·.1)).filterMap id = (visible row).map (·.1) := by
+      induction row with
+      | nil => rfl
+      | cons p row ih =>
+        obtain ⟨s, v⟩ := p
+        cases s <;> simp [visible] at ih ⊢ <;> exact ih
+    have := h1 (row.map (·.1))
+    simp only [List.map_map] at this
+    simp only [attendOf]
+    rw [show (row.map fun p => p.1.getD ops.bigNeg) = row.map ((fun x : Option S => x.getD ops.bigNeg) ∘ fun p => p.1) from rfl,
+      this, hf]
+    have := aux_scatter_wsum ops zero h2 row (sm ((visible row).map (·.1))) [] (by simp [hsm])
+    simpa using this
+  intro r r' h
+  show attendOf ops r = attendOf ops r'
+  rw [key, key, h]
+
+-- the two primitive facts are satisfiable together (weights = logits, `finfo.min` := 0, Σ w·v)
+example : SeesOnlyVisible (⟨fun (q k : Nat) => q * k, fun s (b : Nat) => s + b,
+    attendOf ⟨0, id, fun l => (l.map fun p : Nat × Nat => p.1 * p.2).sum⟩⟩ : AttnCfg Nat Nat Nat Nat Nat Nat) :=
+  attend_sees_only_visible _ _ ⟨0, id, fun l => (l.map fun p : Nat × Nat => p.1 * p.2).sum⟩ 0 id (fun _ => rfl)
+    (by
+      intro row
+      induction row with
+      | nil => rfl
+      | cons s r ih => cases s <;> simp_all [scatter])
+    (by intro a b v; simp)
+
+end Weights
+
 end Attn
 
 /-! ## Mask combinators -/
@@ -904,6 +1002,347 @@ theorem select_last2_orig_wrong :
 
 end RNN
 
+/-! ## `flip_sequences` / `_select_last_carry` with any number of batch axes, both layouts -/
+
+section NDim
+variable {α : Type}
+
+/-- in-bounds multi-index: same rank, every coordinate below the extent -/
+inductive InB : List Nat → List Nat → Prop
+  | nil : InB [] []
+  | cons {i d : Nat} {is ds : List Nat} : i < d → InB is ds → InB (i :: is) (d :: ds)
+
+private theorem aux_inb_length {idx shape : List Nat} (h : InB idx shape) : idx.length = shape.length := by
+  induction h with
+  | nil => rfl
+  | cons _ _ ih => simp [ih]
+
+private theorem aux_bcast_inb {idx shape : List Nat} (h : InB idx shape) : bcastIdx shape idx = idx := by
+  induction h with
+  | nil => rfl
+  | cons hlt _ ih =>
+    simp only [bcastIdx, List.zipWith_cons_cons] at ih ⊢
+    rw [ih]
+    split
+    · congr 1; omega
+    · rfl
+
+private theorem aux_bcast_append (sa sb a b : List Nat) (h : a.length = sa.length) :
+    bcastIdx (sa ++ sb) (a ++ b) = bcastIdx sa a ++ bcastIdx sb b := by
+  simp only [bcastIdx]
+  exact List.zipWith_append (by omega)
+
+private theorem aux_bcast_length (s idx : List Nat) (h : idx.length = s.length) : (bcastIdx s idx).length = s.length := by
+  simp [bcastIdx, h]
+
+private theorem aux_bshape_ones (s : List Nat) : bshape2 (List.replicate s.length 1) s = s := by
+  induction s with
+  | nil => rfl
+  | cons d s ih => simp only [bshape2, List.length_cons, List.replicate_succ, List.zipWith_cons_cons] at ih ⊢; simp [ih]
+
+private theorem aux_tdim (T : Nat) : (if T = 1 then 1 else T) = T := by split <;> omega
+
+private theorem aux_bcoord (T t : Nat) (ht : t < T) : (if T = 1 then 0 else t) = t := by split <;> omega
+
+private theorem aux_set_last {β : Type} (a : List β) (x y : β) : (a ++ [x]).set a.length y = a ++ [y] := by
+  induction a with
+  | nil => rfl
+  | cons b a ih => simp [ih]
+
+private theorem aux_set_mid {β : Type} (a b : List β) (x y : β) : (a ++ x :: b).set a.length y = a ++ y :: b := by
+  induction a with
+  | nil => rfl
+  | cons c a ih => simp [ih]
+
+/-- time-major pieces -/
+private theorem aux_tm_sl (lens : ND Nat) (is : List Nat) (t : Nat) (his : InB is lens.shape) :
+    (lens.expandDims 0).bget (t :: is) = lens.get is := by
+  simp only [ND.bget, ND.expandDims, List.insertIdx_zero, bcastIdx, List.zipWith_cons_cons, ↓reduceIte,
+    List.eraseIdx_cons_zero]
+  have := aux_bcast_inb his
+  simp only [bcastIdx] at this
+  rw [this]
+
+private theorem aux_tm_ar (T nb t : Nat) (is : List Nat) (ht : t < T) :
+    (arangeRevAt T (nb + 1) 0).bget (t :: is) = T - 1 - t := by
+  simp only [ND.bget, arangeRevAt, List.replicate_succ, List.set_cons_zero, bcastIdx, List.zipWith_cons_cons,
+    List.getElem?_cons_zero, Option.getD_some, aux_bcoord T t ht]
+
+/-- batch-major pieces -/
+private theorem aux_bm_sl (lens : ND Nat) (is : List Nat) (t : Nat) (his : InB is lens.shape) :
+    (lens.expandDims lens.shape.length).bget (is ++ [t]) = lens.get is := by
+  have hlen := aux_inb_length his
+  simp only [ND.bget, ND.expandDims]
+  rw [show lens.shape.insertIdx lens.shape.length 1 = lens.shape ++ [1] by simp [List.insertIdx_length_self],
+    aux_bcast_append _ _ _ _ hlen, aux_bcast_inb his]
+  simp only [bcastIdx, List.zipWith_cons_cons, ↓reduceIte, List.zipWith_nil_left]
+  rw [← hlen, List.eraseIdx_append_of_length_le (by omega)]
+  simp
+
+private theorem aux_bm_ar (T t : Nat) (is : List Nat) (ht : t < T) :
+    (arangeRevAt T (is.length + 1) is.length).bget (is ++ [t]) = T - 1 - t := by
+  simp only [ND.bget, arangeRevAt]
+  have hs : (List.replicate (is.length + 1) 1).set is.length T = List.replicate is.length 1 ++ [T] := by
+    rw [List.replicate_succ']
+    have := aux_set_last (List.replicate is.length 1) 1 T
+    simp only [List.length_replicate] at this
+    exact this
+  rw [hs, aux_bcast_append _ _ _ _ (by simp)]
+  have hl : (bcastIdx (List.replicate is.length 1) is).length = is.length := by simp [bcastIdx]
+  rw [List.getElem?_append_right (by omega), hl]
+  simp [bcastIdx, aux_bcoord T t ht]
+
+theorem flip_nd_spec (inputs : ND α) (lens : ND Nat) (tm : Bool) (T : Nat) (fshape is fs : List Nat) (t : Nat)
+    (hshape : inputs.shape = layout tm lens.shape T fshape)
+    (his : InB is lens.shape) (ht : t < T) :
+    (flipND inputs (some lens) lens.shape.length tm).get (layout tm is t fs) =
+      inputs.get (layout tm is (flipIdx T (lens.get is) t) fs) := by
+  have hlen := aux_inb_length his
+  cases tm with
+  | true =>
+    simp only [layout, ↓reduceIte] at hshape ⊢
+    have hT : (inputs.shape[0]?).getD 0 = T := by rw [hshape]; simp
+    simp only [flipND, ↓reduceIte, hT, List.set_cons_zero]
+    congr 2
+    have hS : bshape2 (arangeRevAt T (lens.shape.length + 1) 0).shape (lens.expandDims 0).shape = T :: lens.shape := by
+      simp only [arangeRevAt, ND.expandDims, List.replicate_succ, List.set_cons_zero, List.insertIdx_zero, bshape2,
+        List.zipWith_cons_cons, aux_tdim]
+      have := aux_bshape_ones lens.shape
+      simp only [bshape2] at this
+      rw [this]
+    rw [hS]
+    simp only [ND.bget, List.length_cons]
+    have hb : bcastIdx (T :: lens.shape ++ List.replicate (inputs.shape.length - (lens.shape.length + 1)) 1) (t :: (is ++ fs))
+        = (t :: is) ++ bcastIdx (List.replicate (inputs.shape.length - (lens.shape.length + 1)) 1) fs := by
+      rw [show T :: lens.shape ++ List.replicate (inputs.shape.length - (lens.shape.length + 1)) 1
+          = (T :: lens.shape) ++ List.replicate (inputs.shape.length - (lens.shape.length + 1)) 1 from rfl,
+        show t :: (is ++ fs) = (t :: is) ++ fs from rfl, aux_bcast_append _ _ _ _ (by simp [hlen]),
+        aux_bcast_inb (InB.cons ht his)]
+    rw [hb, List.take_left' (by simp [hlen])]
+    have h1 := aux_tm_ar T lens.shape.length t is ht
+    have h2 := aux_tm_sl lens is t his
+    simp only [ND.bget] at h1 h2
+    rw [h1, h2]
+    rfl
+  | false =>
+    simp only [layout, Bool.false_eq_true, ↓reduceIte] at hshape ⊢
+    have hT : (inputs.shape[lens.shape.length]?).getD 0 = T := by rw [hshape]; simp
+    simp only [flipND, Bool.false_eq_true, ↓reduceIte, hT]
+    have hS : bshape2 (arangeRevAt T (lens.shape.length + 1) lens.shape.length).shape
+        (lens.expandDims lens.shape.length).shape = lens.shape ++ [T] := by
+      simp only [arangeRevAt, ND.expandDims]
+      have hsl := aux_set_last (List.replicate lens.shape.length 1) 1 T
+      simp only [List.length_replicate] at hsl
+      rw [List.replicate_succ', hsl, show lens.shape.insertIdx lens.shape.length 1 = lens.shape ++ [1] by
+        simp [List.insertIdx_length_self]]
+      simp only [bshape2]
+      rw [List.zipWith_append (by simp)]
+      have := aux_bshape_ones lens.shape
+      simp only [bshape2] at this
+      rw [this]
+      simp [aux_tdim]
+    rw [hS]
+    simp only [ND.bget, List.length_append, List.length_cons, List.length_nil]
+    have hb : bcastIdx (lens.shape ++ [T] ++ List.replicate (inputs.shape.length - (lens.shape.length + 0 + 1)) 1) (is ++ t :: fs)
+        = (is ++ [t]) ++ bcastIdx (List.replicate (inputs.shape.length - (lens.shape.length + 0 + 1)) 1) fs := by
+      rw [show is ++ t :: fs = (is ++ [t]) ++ fs by simp, aux_bcast_append _ _ _ _ (by simp [hlen]),
+        aux_bcast_append _ _ _ _ hlen, aux_bcast_inb his]
+      congr 2
+      simp [bcastIdx, aux_bcoord T t ht]
+    rw [hb, List.take_left' (by simp [hlen])]
+    have h1 := aux_bm_ar T t is ht
+    have h2 := aux_bm_sl lens is t his
+    rw [hlen] at h1
+    simp only [ND.bget] at h1 h2
+    rw [h1, h2, ← hlen]
+    congr 1
+    rw [aux_set_mid]
+    rfl
+
+/-- without `seq_lengths`: plain reversal of the time axis, in both layouts -/
+theorem flip_nd_none_spec (inputs : ND α) (nb : Nat) (tm : Bool) (T : Nat) (bshape fshape is fs : List Nat) (t : Nat)
+    (hshape : inputs.shape = layout tm bshape T fshape) (hnb : bshape.length = nb) (his : is.length = nb) :
+    (flipND inputs none nb tm).get (layout tm is t fs) = inputs.get (layout tm is (T - 1 - t) fs) := by
+  cases tm with
+  | true =>
+    simp only [layout, ↓reduceIte] at hshape ⊢
+    simp [flipND, hshape]
+  | false =>
+    simp only [layout, Bool.false_eq_true, ↓reduceIte] at hshape ⊢
+    have hT : (inputs.shape[nb]?).getD 0 = T := by rw [hshape, ← hnb]; simp
+    simp only [flipND, Bool.false_eq_true, ↓reduceIte, hT]
+    rw [← his, aux_set_mid]
+    simp
+
+private theorem aux_flipSeq_map {β γ : Type} (f : β → γ) (len : Option Nat) (xs : List β) :
+    flipSeq len (xs.map f) = (flipSeq len xs).map f := by
+  cases len with
+  | none => simp [flipSeq]
+  | some l =>
+    apply List.ext_getElem?
+    intro t
+    simp only [flipSeq, List.getElem?_ofFn, List.length_map, List.getElem?_map]
+    by_cases h : t < xs.length
+    · simp only [h, ↓reduceDIte, Option.map_some, List.getElem_map]
+      rfl
+    · simp [h]
+
+/-- **the one-row model is what every batch element sees**: the time series of batch element `is` of
+`flip_sequences(inputs, seq_lengths, …)` is `flipSeq` of that element's own series with its own length
+`seq_lengths[is]` — any number of batch axes, both layouts, with or without lengths. -/
+theorem flip_nd_row (inputs : ND α) (lens : Option (ND Nat)) (tm : Bool) (T : Nat) (bshape is : List Nat)
+    (hshape : inputs.shape = layout tm bshape T []) (his : InB is bshape)
+    (hl : ∀ l, lens = some l → l.shape = bshape) :
+    rowND (flipND inputs lens bshape.length tm) tm is T =
+      flipSeq (lens.map (·.get is)) (rowND inputs tm is T) := by
+  have hrl : (rowND inputs tm is T).length = T := by simp [rowND]
+  apply List.ext_getElem?
+  intro t
+  by_cases ht : t < T
+  · cases lens with
+    | none =>
+      simp only [Option.map_none, flipSeq]
+      rw [List.getElem?_reverse (by omega), hrl]
+      simp only [rowND, List.getElem?_map, List.getElem?_range ht, Option.map_some,
+        List.getElem?_range (show T - 1 - t < T by omega)]
+      rw [flip_nd_none_spec inputs bshape.length tm T bshape [] is [] t hshape rfl (aux_inb_length his)]
+    | some l =>
+      have hls := hl l rfl
+      simp only [Option.map_some, flipSeq, List.getElem?_ofFn, hrl, ht, ↓reduceDIte]
+      simp only [rowND, List.getElem?_map, List.getElem?_range ht, Option.map_some, List.getElem_map,
+        List.getElem_range]
+      rw [← hls] at his hshape ⊢
+      rw [flip_nd_spec inputs l tm T [] is [] t hshape his ht]
+  · rw [List.getElem?_eq_none (by simp [rowND]; omega),
+      List.getElem?_eq_none (by rw [flip_length, hrl]; omega)]
+
+private theorem aux_range_getD (l : List Nat) : (List.range l.length).map (fun k => (l[k]?).getD 0) = l := by
+  apply List.ext_getElem?
+  intro k
+  by_cases h : k < l.length
+  · simp [List.getElem?_range h, List.getElem?_eq_getElem h]
+  · have h' : l.length ≤ k := by omega
+    simp [List.getElem?_eq_none h']
+    exact h'
+
+/-- **repaired `_select_last_carry`, any number of batch axes**: batch element `is` gets the stacked carry of
+its own series at its own `seq_lengths[is] - 1` -/
+theorem select_last_nd_spec (x : ND α) (lens : ND Nat) (is fs : List Nat) (his : is.length = lens.shape.length) :
+    (selectLastND x lens).get (is ++ fs) = x.get ((lens.get is - 1) :: (is ++ fs)) := by
+  simp only [selectLastND, ← his, List.take_left', List.drop_left']
+  rw [aux_range_getD]
+
+private theorem aux_rnnRow_snd {C X Y : Type} (cell : C → X → C × Y) (c0 : C) (xs : List X) (len : Option Nat)
+    (rev keep : Bool) :
+    (rnnRow cell c0 xs len rev keep).2 =
+      (if rev && keep then flipSeq len ((scanCell cell c0 (if rev then flipSeq len xs else xs)).2.map Prod.snd)
+       else (scanCell cell c0 (if rev then flipSeq len xs else xs)).2.map Prod.snd) := by
+  cases len <;> rfl
+
+private theorem aux_rnnRow_fst {C X Y : Type} (cell : C → X → C × Y) (c0 : C) (xs : List X) (len : Option Nat)
+    (rev keep : Bool) :
+    (rnnRow cell c0 xs len rev keep).1 =
+      (match len with
+       | none => some (scanCell cell c0 (if rev then flipSeq len xs else xs)).1
+       | some l => selectLast ((scanCell cell c0 (if rev then flipSeq len xs else xs)).2.map Prod.fst) l) := by
+  cases len <;> rfl
+
+-- flip_nd_spec, concretely: time-major [T=3, 2, 2] input holding 100·t + 10·i + j, lengths [[1, 3], [2, 1]]:
+-- element (0, 1) (length 3) is reversed, element (1, 0) (length 2) swaps its first two steps, element (0, 0) keeps step 0
+example :
+    let inp : ND Nat := ⟨[3, 2, 2], fun idx => 100 * idx[0]! + 10 * idx[1]! + idx[2]!⟩
+    let lens : ND Nat := ⟨[2, 2], fun is => [[1, 3], [2, 1]][is[0]!]![is[1]!]!⟩
+    (flipND inp (some lens) 2 true).get [0, 0, 1] = 201 ∧ (flipND inp (some lens) 2 true).get [0, 1, 0] = 110 ∧
+    (flipND inp (some lens) 2 true).get [0, 0, 0] = 0 ∧ (flipND inp (some lens) 2 true).get [2, 1, 0] = 210 ∧
+    InB [0, 1] lens.shape := by
+  refine ⟨by decide, by decide, by decide, by decide, ?_⟩
+  exact InB.cons (by decide) (InB.cons (by decide) InB.nil)
+
+private theorem aux_unlayout (tm : Bool) (is : List Nat) (t : Nat) :
+    unlayout tm is.length (layout tm is t []) = (is, t) := by
+  cases tm <;> simp [unlayout, layout]
+
+private theorem aux_range_map_getElem? {β γ : Type} (l : List β) (f : β → γ) (n : Nat) (h : l.length = n) :
+    (List.range n).map (fun t => (l[t]?).map f) = (l.map f).map some := by
+  apply List.ext_getElem?
+  intro t
+  by_cases ht : t < n
+  · have ht' : t < l.length := by omega
+    simp [List.getElem?_range ht, List.getElem?_eq_getElem ht']
+  · have h1 : n ≤ t := by omega
+    simp [h, h1]
+
+/-- **`RNN` on any number of batch axes, both layouts = the one-row model applied to every batch element with
+its own initial carry and its own `seq_lengths` entry.** For an input `[*batch, T]` (or `[T, *batch]` when
+`time_major`), every flag combination, with or without lengths: the output series of batch element `is` and its
+returned carry are exactly `rnnRow` of that element's input series. Together with `rnn_valid_spec` /
+`rnn_padding_inert` this lifts every one-row theorem to arbitrary batch shapes and to `time_major`. -/
+theorem rnn_nd_spec {C X Y : Type} (cell : C → X → C × Y) (c0 : ND C) (inputs : ND X) (lens : Option (ND Nat))
+    (tm rev keep : Bool) (T : Nat) (bshape is : List Nat)
+    (hshape : inputs.shape = layout tm bshape T []) (his : InB is bshape)
+    (hl : ∀ l, lens = some l → l.shape = bshape) :
+    rowND (rnnND cell c0 inputs lens bshape.length T tm rev keep).2 tm is T =
+      (rnnRow cell (c0.get is) (rowND inputs tm is T) (lens.map (·.get is)) rev keep).2.map some ∧
+    (rnnND cell c0 inputs lens bshape.length T tm rev keep).1.get is =
+      (rnnRow cell (c0.get is) (rowND inputs tm is T) (lens.map (·.get is)) rev keep).1 := by
+  have hisl := aux_inb_length his
+  have hrl : (rowND inputs tm is T).length = T := by simp [rowND]
+  -- the series the scan sees for this batch element
+  have hx1 : rowND (if rev then flipND inputs lens bshape.length tm else inputs) tm is T =
+      (if rev then flipSeq (lens.map (·.get is)) (rowND inputs tm is T) else rowND inputs tm is T) := by
+    cases rev
+    · rfl
+    · simp only [↓reduceIte]; exact flip_nd_row inputs lens tm T bshape is hshape his hl
+  have hx1len : (if rev then flipSeq (lens.map (·.get is)) (rowND inputs tm is T) else rowND inputs tm is T).length = T := by
+    cases rev <;> simp [flip_length, hrl]
+  refine ⟨?_, ?_⟩
+  · -- outputs
+    have houts : ∀ (o : ND (Option Y)),
+        (o = ⟨inputs.shape, fun idx =>
+            ((scanCell cell (c0.get (unlayout tm bshape.length idx).1)
+              (rowND (if rev then flipND inputs lens bshape.length tm else inputs) tm (unlayout tm bshape.length idx).1 T)).2[(unlayout tm bshape.length idx).2]?).map Prod.snd⟩) →
+        rowND o tm is T = ((scanCell cell (c0.get is)
+          (if rev then flipSeq (lens.map (·.get is)) (rowND inputs tm is T) else rowND inputs tm is T)).2.map Prod.snd).map some := by
+      intro o ho
+      subst ho
+      simp only [rowND]
+      have : ∀ t, unlayout tm bshape.length (layout tm is t []) = (is, t) := by
+        intro t; rw [← hisl]; exact aux_unlayout tm is t
+      simp only [this]
+      have hx1' := hx1
+      simp only [rowND] at hx1'
+      rw [hx1']
+      exact aux_range_map_getElem? _ _ T (by rw [aux_scan_length]; exact hx1len)
+    simp only [rnnND, aux_rnnRow_snd]
+    cases hrk : (rev && keep) with
+    | false =>
+      simp only [Bool.false_eq_true, ↓reduceIte]
+      exact houts _ rfl
+    | true =>
+      simp only [↓reduceIte]
+      rw [flip_nd_row (⟨inputs.shape, _⟩ : ND (Option Y)) lens tm T bshape is hshape his hl, houts _ rfl,
+        aux_flipSeq_map]
+  · -- carry
+    simp only [rnnND, aux_rnnRow_fst]
+    cases lens with
+    | none =>
+      simp only [Option.map_none] at hx1 ⊢
+      rw [hx1]
+    | some l =>
+      have hls := hl l rfl
+      simp only [Option.map_some] at hx1 hx1len ⊢
+      by_cases hd : 1 ≤ l.get is ∧ l.get is ≤ T
+      · have := select_last_nd_spec (⟨T :: c0.shape, fun idx =>
+            ((scanCell cell (c0.get idx.tail)
+              (rowND (if rev then flipND inputs (some l) bshape.length tm else inputs) tm idx.tail T)).2[idx.headD 0]?).map Prod.fst⟩ : ND (Option C))
+          l is [] (by rw [hls]; exact hisl)
+        simp only [List.append_nil, List.tail_cons, List.headD_cons, hx1] at this
+        simp only [hd, and_self, ↓reduceIte, this, selectLast, List.length_map, aux_scan_length, hx1len,
+          List.getElem?_map]
+      · simp only [hd, ↓reduceIte, selectLast, List.length_map, aux_scan_length, hx1len]
+
+end NDim
+
 /-! ## Cells: OptimizedLSTMCell computes LSTMCell's recurrence -/
 
 section Cells
@@ -987,7 +1426,145 @@ example : lstmStepOpt (fun v : Int => v + 1) (fun v => 2 * v - 1) true 1
       ⟨[[1, -1]], [[0, 1]], [[1, 1]], [[-1, 0]], [[1]], [[-1]], [[0]], [[1]], [1], [0], [-1], [1]⟩ ([2], [-1]) [1, 2] := by
   decide
 
+/-! ### the documented recurrences, as written in the docstrings, and the code's plumbing
+
+`W x` is `dense W x`; `+`, `*` on vectors are element-wise. The statements are over any scalar type with the
+stated laws (they are exact-arithmetic statements; floats satisfy commutativity but not associativity, which
+is why the float comparison in the harness carries a tolerance). -/
+
+/-- LSTM docstring: `i = σ(W_ii x + W_hi h + b_hi)`, `f = σ(W_if x + W_hf h + b_hf)`, `g = tanh(W_ig x + W_hg h + b_hg)`,
+`o = σ(W_io x + W_ho h + b_ho)`, `c' = f * c + i * g`, `h' = o * tanh(c')` -/
+def lstmDoc (σ τ : R → R) (p : LstmParams R) (c h x : List R) : List R × List R :=
+  let i := (vadd (vadd (dense p.ii x) (dense p.hi h)) p.bi).map σ
+  let f := (vadd (vadd (dense p.iF x) (dense p.hf h)) p.bf).map σ
+  let g := (vadd (vadd (dense p.ig x) (dense p.hg h)) p.bg).map τ
+  let o := (vadd (vadd (dense p.io x) (dense p.ho h)) p.bo).map σ
+  let c' := vadd (vmul f c) (vmul i g)
+  (c', vmul o (c'.map τ))
+
+omit [Mul R] [OfNat R 0] in
+private theorem aux_vadd_assoc (hassoc : ∀ a b c : R, a + b + c = a + (b + c)) (a b c : List R) :
+    vadd (vadd a b) c = vadd a (vadd b c) := by
+  simp only [vadd]
+  induction a generalizing b c with
+  | nil => simp
+  | cons x a ih =>
+    cases b with
+    | nil => simp
+    | cons y b =>
+      cases c with
+      | nil => simp
+      | cons z c => simp [hassoc x y z, ih b c]
+
+/-- **LSTMCell follows its documented recurrence** (Linen and NNX share the body): the code adds the bias to the
+hidden-state projection first (`Dense(use_bias=True)` on `h`), the docstring writes it last — equal by
+associativity of `+`. New carry `(c', h')`, output `h'`. -/
+theorem lstm_follows_doc (σ τ : R → R) (p : LstmParams R) (hassoc : ∀ a b c : R, a + b + c = a + (b + c))
+    (c h x : List R) :
+    lstmStep σ τ p (c, h) x = (lstmDoc σ τ p c h x, (lstmDoc σ τ p c h x).2) := by
+  simp only [lstmStep, lstmDoc, denseB, aux_vadd_assoc hassoc]
+
 end Cells
+
+section Cells2
+variable {R : Type} [Add R] [Mul R] [Sub R] [OfNat R 0] [OfNat R 1]
+
+/-- GRU docstring: `r = σ(W_ir x + b_ir + W_hr h)`, `z = σ(W_iz x + b_iz + W_hz h)`,
+`n = tanh(W_in x + b_in + r * (W_hn h + b_hn))`, `h' = (1 - z) * n + z * h` (`b_hn` absent in NNX) -/
+def gruDoc (σ τ : R → R) (p : GruParams R) (h x : List R) : List R :=
+  let r := (vadd (vadd (dense p.ir x) p.bir) (dense p.hr h)).map σ
+  let z := (vadd (vadd (dense p.iz x) p.biz) (dense p.hz h)).map σ
+  let whn := match p.bhn with
+    | some b => vadd (dense p.hn h) b
+    | none => dense p.hn h
+  let n := (vadd (vadd (dense p.iN x) p.biN) (vmul r whn)).map τ
+  vadd (vmul (z.map (1 - ·)) n) (vmul z h)
+
+/-- **Linen GRUCell follows its documented recurrence**, including where `b_hn` sits (inside the product with
+`r`); no algebraic law is needed: the code is the formula. Carry and output are both `h'`. -/
+theorem gru_follows_doc (σ τ : R → R) (p : GruParams R) (h x : List R) :
+    gruStep σ τ p h x = (gruDoc σ τ p h x, gruDoc σ τ p h x) := by
+  cases hb : p.bhn <;> simp [gruStep, gruDoc, denseB, denseO, hb]
+
+private theorem aux_blocks3 {α : Type} (n : Nat) (a0 a1 a2 : List α) (h0 : a0.length = n) (h1 : a1.length = n)
+    (h2 : a2.length = n) :
+    ((a0 ++ a1 ++ a2).drop (0 * n)).take n = a0 ∧ ((a0 ++ a1 ++ a2).drop (1 * n)).take n = a1 ∧
+    ((a0 ++ a1 ++ a2).drop (2 * n)).take n = a2 := by
+  refine ⟨?_, ?_, ?_⟩
+  · simp only [Nat.zero_mul, List.drop_zero, List.append_assoc]
+    exact List.take_left' h0
+  · rw [show a0 ++ a1 ++ a2 = a0 ++ (a1 ++ a2) by simp, List.drop_left' (by omega)]
+    exact List.take_left' h1
+  · rw [List.drop_left' (by simp; omega)]
+    rw [← h2]; exact List.take_length
+
+/-- **nnx.GRUCell's layout** — one `3n`-wide input layer with bias, one `3n`-wide hidden layer *without* bias,
+each split into `r, z, n` blocks — computes the documented recurrence with the three kernels concatenated in
+the order `r, z, n` and **no `b_hn`** (the NNX docstring shows a `b_hn` that the cell does not have). -/
+theorem gru_nnx_follows_doc (σ τ : R → R) (n : Nat) (p : GruParams R) (hnone : p.bhn = none)
+    (hk : p.ir.length = n ∧ p.iz.length = n ∧ p.iN.length = n ∧ p.hr.length = n ∧ p.hz.length = n ∧ p.hn.length = n)
+    (hb : p.bir.length = n ∧ p.biz.length = n ∧ p.biN.length = n) (h x : List R) :
+    gruStepNnx σ τ n (p.ir ++ p.iz ++ p.iN) (p.bir ++ p.biz ++ p.biN) (p.hr ++ p.hz ++ p.hn) h x =
+      (gruDoc σ τ p h x, gruDoc σ τ p h x) := by
+  obtain ⟨k1, k2, k3, k4, k5, k6⟩ := hk
+  obtain ⟨b1, b2, b3⟩ := hb
+  have hx : denseB (p.ir ++ p.iz ++ p.iN) (p.bir ++ p.biz ++ p.biN) x =
+      denseB p.ir p.bir x ++ denseB p.iz p.biz x ++ denseB p.iN p.biN x := by
+    simp only [denseB, vadd, dense, List.map_append]
+    rw [List.zipWith_append (by simp; omega), List.zipWith_append (by simp; omega)]
+  have hh : dense (p.hr ++ p.hz ++ p.hn) h = dense p.hr h ++ dense p.hz h ++ dense p.hn h := by simp [dense]
+  have bx := aux_blocks3 n (denseB p.ir p.bir x) (denseB p.iz p.biz x) (denseB p.iN p.biN x)
+    (by simp [denseB, vadd, dense]; omega) (by simp [denseB, vadd, dense]; omega) (by simp [denseB, vadd, dense]; omega)
+  have bh := aux_blocks3 n (dense p.hr h) (dense p.hz h) (dense p.hn h) (by simp [dense, k4]) (by simp [dense, k5])
+    (by simp [dense, k6])
+  simp only [gruStepNnx, hx, hh, bx.1, bx.2.1, bx.2.2, bh.1, bh.2.1, bh.2.2]
+  simp only [gruDoc, hnone, denseB]
+
+/-- SimpleCell docstring: `h' = tanh(W_i x + b_i + W_h h)`, with `residual`: `tanh(W_i x + b_i + W_h h + h)` -/
+def simpleDoc (τ : R → R) (residual : Bool) (wi : List (List R)) (bi : List R) (wh : List (List R)) (h x : List R) :
+    List R :=
+  if residual then (vadd (vadd (vadd (dense wi x) bi) (dense wh h)) h).map τ
+  else (vadd (vadd (dense wi x) bi) (dense wh h)).map τ
+
+omit [Sub R] [OfNat R 1] in
+/-- **SimpleCell follows its documented recurrence** (Linen and NNX share the body) -/
+theorem simple_follows_doc (τ : R → R) (residual : Bool) (wi : List (List R)) (bi : List R) (wh : List (List R))
+    (h x : List R) :
+    simpleStep τ residual wi bi wh h x = (simpleDoc τ residual wi bi wh h x, simpleDoc τ residual wi bi wh h x) := by
+  cases residual <;> simp [simpleStep, simpleDoc, denseB]
+
+/-- MGU docstring: `f = σ(W_if x + b_if + W_hf h)`, `n = tanh(W_in x + b_in + f * (W_hn h + b_hn))`
+(without `reset_gate`: `n = tanh(W_in x + b_in + W_hn h)`), `h' = (1 - f) * n + f * h` -/
+def mguDoc (σ τ : R → R) (resetGate : Bool) (wxf : List (List R)) (bxf : List R) (whf : List (List R))
+    (wxn : List (List R)) (bxn : List R) (whn : List (List R)) (bhn : List R) (h x : List R) : List R :=
+  let f := (vadd (vadd (dense wxf x) bxf) (dense whf h)).map σ
+  let n := if resetGate then (vadd (vadd (dense wxn x) bxn) (vmul f (vadd (dense whn h) bhn))).map τ
+           else (vadd (vadd (dense wxn x) bxn) (dense whn h)).map τ
+  vadd (vmul (f.map (1 - ·)) n) (vmul f h)
+
+omit [Add R] [Sub R] [OfNat R 0] [OfNat R 1] in
+private theorem aux_vmul_comm (hcomm : ∀ a b : R, a * b = b * a) (a b : List R) : vmul a b = vmul b a := by
+  simp only [vmul]
+  induction a generalizing b with
+  | nil => cases b <;> rfl
+  | cons x a ih =>
+    cases b with
+    | nil => rfl
+    | cons y b => simp [hcomm x y, ih b]
+
+/-- **MGUCell follows its documented recurrence**: the code multiplies `(W_hn h + b_hn)` by `f` on the right
+(`x *= f`), the docstring on the left — commutativity of `*`; the bias `b_hn` exists exactly when `reset_gate`. -/
+theorem mgu_follows_doc (σ τ : R → R) (resetGate : Bool) (hcomm : ∀ a b : R, a * b = b * a)
+    (wxf : List (List R)) (bxf : List R) (whf : List (List R)) (wxn : List (List R)) (bxn : List R)
+    (whn : List (List R)) (bhn : List R) (h x : List R) :
+    mguStep σ τ resetGate wxf bxf whf wxn bxn whn bhn h x =
+      (mguDoc σ τ resetGate wxf bxf whf wxn bxn whn bhn h x, mguDoc σ τ resetGate wxf bxf whf wxn bxn whn bhn h x) := by
+  cases resetGate
+  · simp [mguStep, mguDoc, denseB]
+  · simp only [mguStep, mguDoc, denseB, ↓reduceIte]
+    rw [aux_vmul_comm hcomm (vadd (dense whn h) bhn)]
+
+end Cells2
 
 /-! ### non-vacuity: a concrete integer cell with a pair carry -/
 
